@@ -840,7 +840,15 @@ class Executor:
         return [(st, ('continue', None))]
 
     def st_Try(self, node, st):
-        raise Unsupported('try statement')
+        # try/except around statements none of whose modelled paths raises: the handlers are dead
+        # for the modelled behaviour (exceptions numpy would raise by itself are not modelled; the
+        # safety obligations cover index and shape errors)
+        if node.finalbody or node.orelse:
+            raise Unsupported('try with else / finally')
+        outs = self.exec_block(node.body, st)
+        if any(oc[0] == 'raise' for _s, oc in outs):
+            raise Unsupported('try body with an explicit raise')
+        return outs
 
     def st_Delete(self, node, st):
         for t in node.targets:
@@ -1506,6 +1514,22 @@ class Executor:
         return (v,)
 
     def subscript(self, v, k, st):
+        if isinstance(v, tuple) and len(v) == 2 and isinstance(v[0], str) and v[0] == 'global' \
+                and v[1] in ('np.mgrid', 'numpy.mgrid'):
+            # np.mgrid[ys, xs] for two unit-step slices: the row and column coordinates of the
+            # window, yy[j, i] = ys.start + j, xx[j, i] = xs.start + i
+            if not (isinstance(k, tuple) and len(k) == 2 and all(
+                    isinstance(x, SSlice) and x.step is None and x.start is not None
+                    and x.stop is not None for x in k)):
+                raise Unsupported('np.mgrid of this index')
+            ys, xs = k
+            shape = (z3.simplify(num_term(ys.stop) - num_term(ys.start)),
+                     z3.simplify(num_term(xs.stop) - num_term(xs.start)))
+            st.check('np.mgrid: slices are not reversed',
+                     z3.And(num_term(shape[0]) >= 0, num_term(shape[1]) >= 0))
+            yy = SArr(shape, lambda p: num_term(ys.start) + num_term(p[0]), 'int')
+            xx = SArr(shape, lambda p: num_term(xs.start) + num_term(p[1]), 'int')
+            return (yy, xx)
         if isinstance(v, (tuple, list)):
             if isinstance(k, SSlice):
                 a, b, c = concrete(k.start), concrete(k.stop), concrete(k.step)
